@@ -164,7 +164,11 @@ def rule_dedupe_predicate(ctx: Ctx, rule: str) -> None:
         if not ex or 'force_negate' not in d:
             continue
         n_rows += 1
-        E = 'elem(_wcparse:expand(' + ', '.join(_tag(x) for x in ex[0][2]) + '))'
+        # the expansion being looked at: an element of expand(..) -- directly, or through enumerate(.., 1)
+        X = '_wcparse:expand(' + ', '.join(_tag(x) for x in ex[0][2]) + ')'
+        E = f'elem({X})'
+        if any(f'elem(enumerate({X}, 1))[1]' in k for k in d) or any(f'elem(enumerate({X}, 1))[1]' in _tag(y[1]) for y in p.of('yield')):
+            E = f'elem(enumerate({X}, 1))[1]'
         fn = d['force_negate']
         negs = [v for k, v in d.items() if k == f'_wcparse:is_negative({E}, self.flags)']
         if not fn and len(negs) != 1:
